@@ -504,6 +504,13 @@ def ops_of_kind(cname, kind, k):
             for b in ids:
                 add("get_bond_stereo_change", ((a, b),), lambda g, a=a, b=b: g.get_bond_stereo_change((a, b)), None)
         add("change_views", (), lambda g: (dict(g.atom_stereo_changes), dict(g.bond_stereo_changes)), None)
+        for a in ids:
+            # look-ups through the public mapping views themselves (subscript, get, membership)
+            add("atom_stereo_changes[...]", (a,), lambda g, a=a: (a in g.atom_stereo_changes, g.atom_stereo_changes.get(a), g.atom_stereo_changes[a]), None)
+            for b in ids:
+                if a < b:
+                    add("bond_stereo_changes[...]", ((a, b),),
+                        lambda g, a=a, b=b: (g.bond_stereo_changes.get(frozenset((a, b))), g.bond_stereo_changes[frozenset((a, b))]), None)
     else:
         raise AssertionError(kind)
     return out
